@@ -37,4 +37,8 @@ var configs = map[string]config{
 		Assumptions: assume("the list of a handle is read through Has/Get/GetAll for all names in play and through String() compared with a twin's serialization of the expected list (Iterate is avoided because it writes back to the URL)", "the expected list after SetSearch is the reference form-urlencoded parse of the stored query; histories whose decoded lists contain invalid UTF-8 are not judged through getters")},
 	"C13": {Tests: "^TestC13$", QuickChecks: 20000, ThoroughChecks: 200000, QuickShards: 8, ThoroughShards: 16,
 		Assumptions: assume("a side whose parameter list was never materialised is observed through its getters only until the end of the history, because looking at the list would itself create the lazily created state the scenario is about", "the isolated twin is a fresh parse of the same string with the same operations")},
+	"C15": {Tests: "^TestC15$", QuickChecks: 40000, ThoroughChecks: 400000, QuickShards: 8, ThoroughShards: 16,
+		Assumptions: assume("'marked as a failure' is checked for errors returned by the default and the reporting parser; for the two fail-on-validation-error modes, whose purpose is to return non-fatal validation errors, the check is that a failure-marked error implies the default parser fails too (DESIGN §7.3)", "the documented type set is the list of constants exported by errors/codes.go; the missing-scheme classification is tied to the reference model's failure state")},
+	"C16": {Tests: "^TestC16$", QuickChecks: 50000, ThoroughChecks: 400000, QuickShards: 8, ThoroughShards: 16,
+		Assumptions: assume(modelAssumption, "an option's trigger is decided on the input text (after the parser's own trimming and tab/newline removal) and deliberately conservatively: when in doubt the neutrality clause is skipped, never failed", "options outside the statement's list (encoding override, host callbacks, skip-trailing-slash-normalization, fail-on-validation-error) are not part of this check; sort order of names with invalid UTF-8 or mixing supplementary-plane with U+E000..U+FFFF is not judged")},
 }
